@@ -25,7 +25,9 @@ RULE = (
     "the first complete announcement without a parent makes the parent and the client drops the other candidates), "
     "join (a peer connects in with type D: child, or candidate if its name is in the potential-parent cache), leave "
     "(a child, parent or candidate closes by EOF or reset), reset (server sends ResetDistributed: the client closes "
-    "children and parent), and search requests (carrier ServerSearchRequest from the server while there is no "
+    "children and parent; optionally the close of one child connection is confirmed only after 0.2 / 1.5 / 5.5 s, "
+    "as for a peer that does not drain its socket, and 0..2 new peers connect with type D while the client is "
+    "still awaiting that close: they are accepted and are current children afterwards), and search requests (carrier ServerSearchRequest from the server while there is no "
     "parent, DistributedSearchRequest or legacy DistributedServerSearchRequest from the parent otherwise; user in "
     "{friend asker, stranger asker, tree member, own username, user unknown to the server}; arbitrary uint32 "
     "ticket; query of 1..3 terms: present/absent words, -exclude, *wildcard, upper case, word prefixes), optionally "
@@ -56,6 +58,10 @@ ASSUMPTIONS = [
     "operations are separated by 0.5 s of virtual time with 1 ms latencies (membership changes happen between "
     "requests, as in the quantifier); the whole history stays below the 60 s peer read timeout",
     "scripted askers keep the reply connection open, or close it at a quiescent point (drawn)",
+    "slow close: the client-side in-memory transport of one child reports is_closing() at once and connection_lost "
+    "after the drawn delay (behaviour of a socket transport with unsent buffered data); during that window only "
+    "joins of peers that were never listed as potential parents are generated, requests resume after it; at most "
+    "12 s of such windows per case",
     "the 'unknown' field of forwarded requests and result order are not compared",
 ]
 BUDGET_S = {'quick': 150, 'thorough': 1500}
@@ -810,7 +816,9 @@ MANIFEST_ENTRY = {
                   'compared with the exactly-once fan-out / exactly-one-reply reference after each request group.',
     'level_note': 'Trusted base: virtual loop and in-memory TCP (ordered, lossless, 1 ms latency), the scripted '
                   'server/peers of vfw/simworld.py, the membership model in checks/c14.py, SharesManager.query for '
-                  'the matching file set (C07/C08). Membership changes only at quiescent points (0.5 s apart).',
+                  'the matching file set (C07/C08). Membership changes only at quiescent points (0.5 s apart), except '
+                  'children that leave in the request instant and children that join while a distributed reset '
+                  'still awaits a slowly closing child.',
 }
 
 _Q = [{'w': 0, 'p': True, 'm': 0}]
